@@ -15,6 +15,8 @@ type St struct {
 	Seen  map[string]int            // node key -> number of (non-rebuild) pre-handler runs
 	Saved map[string]map[string]any // node key -> last stamped input
 	Mods  int                       // number of state-modifier applications
+	Touch map[string]int            // node key -> completed executions of a node of a stateless nested graph
+	//                                 that shares this state (not part of the canonical state: oracle only)
 }
 
 func init() {
@@ -46,6 +48,7 @@ type Exec struct {
 	Path  string `json:"path"`
 	In    *Val   `json:"in"`
 	Abort bool   `json:"abort,omitempty"`
+	Touch int    `json:"touch,omitempty"` // what the node saw of the state it shares with its ancestors
 }
 
 // Event: pre-handler (submit) / post-handler (collection) of a node in a stateful graph.
@@ -101,6 +104,43 @@ type builder struct {
 	paths    map[int]string // graph index -> path of the graph node holding it ("" = top)
 }
 
+// sharesTopState: graph gi declares no state, every graph between it and the top level declares none
+// either, and the top-level graph has one: the nodes of gi see the top-level state through ProcessState.
+func (b *builder) sharesTopState(gi int) bool {
+	if gi == 0 || b.c.Graphs[gi].State || !b.c.Graphs[0].State {
+		return false
+	}
+	ix := newIndex(b.c)
+	for cur := gi; cur != 0; {
+		h, ok := ix.holder[cur]
+		if !ok {
+			return false
+		}
+		cur = ix.gOf[h]
+		if cur != 0 && b.c.Graphs[cur].State {
+			return false
+		}
+	}
+	return true
+}
+
+// touch: a completed execution of a node of a stateless nested graph updates the state it shares.
+func (b *builder) touch(ctx context.Context, gi int, k string, e *Exec) {
+	if !b.sharesTopState(gi) {
+		return
+	}
+	_ = compose.ProcessState[*St](ctx, func(ctx context.Context, st *St) error {
+		if st.Touch == nil {
+			st.Touch = map[string]int{}
+		}
+		st.Touch[k]++
+		b.rec.mu.Lock()
+		e.Touch = st.Touch[k]
+		b.rec.mu.Unlock()
+		return nil
+	})
+}
+
 func copyMap(in map[string]any) map[string]any {
 	out := make(map[string]any, len(in)+1)
 	for k, v := range in {
@@ -140,7 +180,35 @@ func (b *builder) postHandler(gi int, n NodeSpec) compose.StatePostHandler[map[s
 	}
 }
 
+func (b *builder) leafPostHandler(gi int, n NodeSpec) compose.StatePostHandler[string, *St] {
+	return func(ctx context.Context, out string, st *St) (string, error) {
+		b.rec.event(gi, "post", n.ID)
+		return out, nil
+	}
+}
+
+// leafLambda: a node whose output is not a map (a string: the size of its input).
+func (b *builder) leafLambda(gi int, n NodeSpec, path string) *compose.Lambda {
+	return compose.InvokableLambda(func(ctx context.Context, in map[string]any) (string, error) {
+		e, att := b.rec.begin(gi, n.ID, path, in)
+		if n.Delay > 0 {
+			time.Sleep(time.Duration(n.Delay) * 300 * time.Microsecond)
+		}
+		if b.rec.rerunOn && has(n.Rerun, att) {
+			b.rec.mu.Lock()
+			e.Abort = true
+			b.rec.mu.Unlock()
+			return "", compose.InterruptAndRerun
+		}
+		b.touch(ctx, gi, key(n.ID), e)
+		return strconv.Itoa(size(in)), nil
+	})
+}
+
 func (b *builder) lambda(gi int, n NodeSpec, path string) *compose.Lambda {
+	if n.Leaf {
+		return b.leafLambda(gi, n, path)
+	}
 	k := key(n.ID)
 	return compose.InvokableLambda(func(ctx context.Context, in map[string]any) (map[string]any, error) {
 		e, att := b.rec.begin(gi, n.ID, path, in)
@@ -153,6 +221,7 @@ func (b *builder) lambda(gi int, n NodeSpec, path string) *compose.Lambda {
 			b.rec.mu.Unlock()
 			return nil, compose.InterruptAndRerun
 		}
+		b.touch(ctx, gi, k, e)
 		return map[string]any{k: in}, nil
 	})
 }
@@ -218,7 +287,14 @@ func (b *builder) nodeOpts(gi int, n NodeSpec) []compose.GraphAddNodeOpt {
 	g := &b.c.Graphs[gi]
 	var opts []compose.GraphAddNodeOpt
 	if g.State {
-		opts = append(opts, compose.WithStatePreHandler(b.preHandler(gi, n)), compose.WithStatePostHandler(b.postHandler(gi, n)))
+		if n.Leaf {
+			opts = append(opts, compose.WithStatePreHandler(b.preHandler(gi, n)), compose.WithStatePostHandler(b.leafPostHandler(gi, n)))
+		} else {
+			opts = append(opts, compose.WithStatePreHandler(b.preHandler(gi, n)), compose.WithStatePostHandler(b.postHandler(gi, n)))
+		}
+	}
+	if n.InKey > 0 {
+		opts = append(opts, compose.WithInputKey(key(n.InKey)))
 	}
 	if n.Sub > 0 {
 		opts = append(opts, compose.WithOutputKey(key(n.ID)), compose.WithGraphCompileOptions(b.compileOpts(n.Sub)...))
@@ -303,7 +379,9 @@ func (b *builder) workflow(gi int, path string) (*compose.Workflow[map[string]an
 				node.AddDependency(key(e.From))
 			default:
 				var maps []*compose.FieldMapping
-				if nData > 1 {
+				if fn := gs.node(e.From); fn != nil && fn.Leaf {
+					maps = []*compose.FieldMapping{compose.ToField(key(e.From))}
+				} else if nData > 1 {
 					if e.From == StartID {
 						return nil, fmt.Errorf("graph %d: START must be the only data predecessor of %d", gi, to)
 					}
